@@ -3,6 +3,7 @@ package main
 import (
 	"go/ast"
 	"go/token"
+	"go/types"
 	"os"
 	"path/filepath"
 	"regexp"
@@ -193,6 +194,98 @@ func runC11(c *Ctx) {
 		c.ob("C11-R1", fnKey(adm)+"#test-and-decrement-one-critical-section", p, ok, "the mutex is released between the budget test and the decrement: two concurrent requests can both pass the test on the last token")
 	}
 
+	// ---- R8 refill carries its remainder
+	c.rule("C11-R8", "ORD/def-use: tokens are whole numbers, so the refill truncates; the part of a token that accrued beyond the whole ones survives only in the time base. In the admitting closure, every store to clientLimit.lastRefill that is reachable from the refill (tokens = tokens + k) and does not advance the previous lastRefill (its value does not derive from the loaded field) lies behind an edge establishing tokens >= BurstSize (the bucket is full, nothing is lost): otherwise every refilling request discards up to one token and a client within the declared rate is rejected")
+	{
+		var adds []ssa.Instruction
+		eachInstr(adm, func(_ *ssa.BasicBlock, _ int, ins ssa.Instruction) {
+			st, ok := ins.(*ssa.Store)
+			if !ok || !isStoreToField(ins, "clientLimit", "tokens") {
+				return
+			}
+			if bo, ok := st.Val.(*ssa.BinOp); ok && bo.Op == token.ADD && (loadedFromField(bo.X, "clientLimit", "tokens") || loadedFromField(bo.Y, "clientLimit", "tokens")) {
+				adds = append(adds, ins)
+			}
+		})
+		intTokens := true
+		if len(adds) > 0 {
+			if bt, ok := adds[0].(*ssa.Store).Val.Type().Underlying().(*types.Basic); ok && bt.Info()&types.IsFloat != 0 {
+				intTokens = false
+			}
+		}
+		fullEdge := func(b *ssa.BasicBlock, si int) bool {
+			iff := ifOf(b)
+			if iff == nil {
+				return false
+			}
+			bo, ok := iff.Cond.(*ssa.BinOp)
+			if !ok {
+				return false
+			}
+			x, y, op := bo.X, bo.Y, bo.Op
+			isTok := func(v ssa.Value) bool {
+				return derivesFrom(v, func(z ssa.Value) bool { return loadedFromField(z, "clientLimit", "tokens") })
+			}
+			isBurst := func(v ssa.Value) bool {
+				return derivesFrom(v, func(z ssa.Value) bool { return loadedFromField(z, "RateLimiterConfig", "BurstSize") })
+			}
+			if isBurst(x) && isTok(y) {
+				x, y = y, x
+				switch op {
+				case token.LSS:
+					op = token.GTR
+				case token.LEQ:
+					op = token.GEQ
+				case token.GTR:
+					op = token.LSS
+				case token.GEQ:
+					op = token.LEQ
+				}
+			}
+			if !isTok(x) || !isBurst(y) {
+				return false
+			}
+			truth := si == 0
+			switch op {
+			case token.GEQ, token.GTR, token.EQL:
+				return truth
+			case token.LSS, token.LEQ, token.NEQ:
+				return !truth
+			}
+			return false
+		}
+		n := 0
+		for _, add := range adds {
+			for _, b := range adm.Blocks {
+				for _, ins := range b.Instrs {
+					st, ok := ins.(*ssa.Store)
+					if !ok || !isStoreToField(ins, "clientLimit", "lastRefill") {
+						continue
+					}
+					if derivesFrom(st.Val, func(z ssa.Value) bool { return loadedFromField(z, "clientLimit", "lastRefill") }) {
+						continue // advances the old time base
+					}
+					q := &pathQuery{fn: adm, cutEdge: fullEdge, target: func(x ssa.Instruction) bool { return x == ins }}
+					hit, path := q.after(add)
+					if hit == nil {
+						// not reachable from the refill other than through a bucket-full edge (or not at all: creation of a new entry)
+						q0 := &pathQuery{fn: adm, target: func(x ssa.Instruction) bool { return x == ins }}
+						if h0, _ := q0.after(add); h0 == nil {
+							continue
+						}
+					}
+					n++
+					c.ob("C11-R8", fnKey(adm)+"#refill-keeps-the-remainder-"+itoa(n), st.Pos(), hit == nil || !intTokens, "after adding whole tokens the time base is reset instead of advanced, on a path where the bucket is not known to be full: the fraction of a token accrued since the last refill is discarded at every refilling request", c.blockPath(path)...)
+				}
+			}
+		}
+		if len(adds) == 0 {
+			c.ob("C11-R8", fnKey(adm)+"#refill-found", adm.Pos(), false, "no statement of the admitting closure adds tokens to the client's bucket: nothing is ever refilled")
+		} else {
+			c.ob("C11-R8", fnKey(adm)+"#refill-found", adds[0].Pos(), true, "")
+		}
+	}
+
 	// ---- R6 per-client keying
 	c.rule("C11-R6", "TNT: every lookup/update of the per-client table in the admitting closure is keyed by a value that derives from getClientIP(request of this call, config.TrustProxy) — buckets are per client, never shared")
 	{
@@ -299,6 +392,50 @@ func runC11(c *Ctx) {
 		})
 		if k == 0 {
 			c.ob("C11-R4", fnKey(f)+"#returns-a-limiter", f.Pos(), false, "rateLimitMiddleware never returns a limiter")
+		}
+	}
+
+	// ---- R9 the bucket is N
+	c.rule("C11-R9", "def-use: the BurstSize of the RateLimiterConfig built for a declared `ratelimit(N/window)` is N itself - the declared Requests, reaching the field through conversions only (no arithmetic): the property's bound N x (1 + T/window) is that of a bucket of N, whatever the window unit")
+	if f := c.fn("cmd/glyph", "rateLimitMiddleware"); f != nil {
+		var direct func(v ssa.Value, d int) bool
+		direct = func(v ssa.Value, d int) bool {
+			if d > 10 {
+				return false
+			}
+			switch x := v.(type) {
+			case *ssa.Convert:
+				return direct(x.X, d+1)
+			case *ssa.ChangeType:
+				return direct(x.X, d+1)
+			case *ssa.UnOp:
+				return loadedFromField(x, "RateLimit", "Requests")
+			case *ssa.Phi:
+				some := false
+				for _, e := range x.Edges {
+					if _, isC := e.(*ssa.Const); isC {
+						continue
+					}
+					if !direct(e, d+1) {
+						return false
+					}
+					some = true
+				}
+				return some
+			}
+			return false
+		}
+		n := 0
+		eachInstr(f, func(_ *ssa.BasicBlock, _ int, ins ssa.Instruction) {
+			st, ok := ins.(*ssa.Store)
+			if !ok || !isStoreToField(ins, "RateLimiterConfig", "BurstSize") {
+				return
+			}
+			n++
+			c.ob("C11-R9", fnKey(f)+"#bucket-is-the-declared-N", st.Pos(), direct(st.Val, 0), "the bucket size handed to the limiter is a converted quantity (N*60 for /sec, ceil(N/60) for /hour, ceil(N/1440) for /day), not the declared N: ratelimit(2/sec) admits a burst of 120, ratelimit(100/hour) rejects the 3rd request of a client that used 2% of its budget")
+		})
+		if n == 0 {
+			c.ob("C11-R9", fnKey(f)+"#bucket-is-the-declared-N", f.Pos(), false, "rateLimitMiddleware sets no BurstSize: the limiter's bucket is not derived from the declaration")
 		}
 	}
 
